@@ -38,13 +38,14 @@ VARIABLES c,        \* case
           mem,      \* [memory -> [address -> byte]] (sparse: untouched bytes are 0)
           msize,    \* [memory -> pages]
           tab,      \* [table -> Seq(function or 0)]
+          dropped,  \* [elem |-> dropped element segments, data |-> dropped data segments] (1-based)
           log,      \* host calls
           res,      \* results of the calls so far
           status,   \* "idle" | "run"
           fuel,
           inst,     \* instantiation outcome
           obsIn     \* observation of the "in" run
-vars == <<c, w, phase, ci, st, frs, gl, mem, msize, tab, log, res, status, fuel, inst, obsIn>>
+vars == <<c, w, phase, ci, st, frs, gl, mem, msize, tab, dropped, log, res, status, fuel, inst, obsIn>>
 
 Prog == IF w = "in" THEN Cases[c].inp ELSE Cases[c].outp
 Wrap(x) == x % M
@@ -103,9 +104,12 @@ Instantiate ==
          mm == IF t.ok THEN InitMems(p, 1, g, ms, m0) ELSE [ok |-> FALSE, v |-> m0]
      IN IF ~t.ok \/ ~mm.ok
         THEN /\ inst' = "trap" /\ phase' = "done"
-             /\ gl' = g /\ msize' = ms /\ tab' = t0 /\ mem' = m0
+             /\ gl' = g /\ msize' = ms /\ tab' = t0 /\ mem' = m0 /\ dropped' = [elem |-> {}, data |-> {}]
              /\ UNCHANGED <<st, frs, status, log>>
         ELSE /\ gl' = g /\ msize' = ms /\ tab' = t.v /\ mem' = mm.v /\ inst' = "ok"
+             \* active and declared segments are dropped once instantiation has used them
+             /\ dropped' = [elem |-> {k \in DOMAIN p.elems : p.elems[k].mode # "passive"},
+                            data |-> {k \in DOMAIN p.data : p.data[k].mode # "passive"}]
              /\ IF p.start >= 0 /\ p.funcs[p.start + 1].imported
                 \* the start function is the host's: instantiation calls out once, before any export is called
                 THEN phase' = "calls" /\ log' = Append(log, [name |-> p.funcs[p.start + 1].name, args |-> <<>>])
@@ -123,7 +127,7 @@ StartCall ==
   /\ LET call == Cases[c].calls[ci] IN
        /\ frs' = <<NewFrame(Prog, ExportedFunc(Prog, call.name), [x \in DOMAIN call.args |-> Wrap(call.args[x])], 0)>>
        /\ st' = <<>> /\ status' = "run"
-  /\ UNCHANGED <<c, w, phase, ci, gl, mem, msize, tab, log, res, fuel, inst, obsIn>>
+  /\ UNCHANGED <<c, w, phase, ci, gl, mem, msize, tab, dropped, log, res, fuel, inst, obsIn>>
 
 \* the running function finished (normally, by trap, or by running out of fuel)
 Finish(outcome) ==
@@ -133,8 +137,8 @@ Finish(outcome) ==
        /\ status' = "idle" /\ frs' = <<>> /\ st' = <<>> /\ UNCHANGED <<res, ci>>
   ELSE /\ res' = Append(res, outcome) /\ ci' = ci + 1 /\ status' = "idle" /\ frs' = <<>> /\ st' = <<>>
        /\ UNCHANGED <<phase, inst>>
-Trap == Finish([kind |-> "trap", vals |-> <<>>]) /\ UNCHANGED <<c, w, gl, mem, msize, tab, log, fuel, obsIn>>
-OutOfFuel == Finish([kind |-> "fuel", vals |-> <<>>]) /\ UNCHANGED <<c, w, gl, mem, msize, tab, log, fuel, obsIn>>
+Trap == Finish([kind |-> "trap", vals |-> <<>>]) /\ UNCHANGED <<c, w, gl, mem, msize, tab, dropped, log, fuel, obsIn>>
+OutOfFuel == Finish([kind |-> "fuel", vals |-> <<>>]) /\ UNCHANGED <<c, w, gl, mem, msize, tab, dropped, log, fuel, obsIn>>
 
 \* ---------- one instruction ----------
 F == frs[Len(frs)]
@@ -142,7 +146,7 @@ K == F.K
 E == K[Len(K)]
 SetK(k2) == [frs EXCEPT ![Len(frs)].K = k2]
 Rest == [K EXCEPT ![Len(K)].code = Tail(E.code)]
-Same == UNCHANGED <<c, w, phase, ci, gl, mem, msize, tab, log, res, status, fuel, inst, obsIn>>
+Same == UNCHANGED <<c, w, phase, ci, gl, mem, msize, tab, dropped, log, res, status, fuel, inst, obsIn>>
 
 Branch(d, s) ==
   LET idx == Len(K) - d
@@ -155,7 +159,7 @@ Branch(d, s) ==
 Return(s) ==
   LET vals == Take(s, F.nr) IN
   IF Len(frs) = 1
-  THEN Finish([kind |-> "ok", vals |-> vals]) /\ UNCHANGED <<c, w, gl, mem, msize, tab, log, fuel, obsIn>>
+  THEN Finish([kind |-> "ok", vals |-> vals]) /\ UNCHANGED <<c, w, gl, mem, msize, tab, dropped, log, fuel, obsIn>>
   ELSE /\ frs' = SubSeq(frs, 1, Len(frs) - 1)
        /\ st' = SubSeq(s, 1, F.base) \o vals
        /\ Same
@@ -165,7 +169,7 @@ DoBranch(d, s) ==
        IF b.loop /\ fuel = 0 THEN OutOfFuel
        ELSE /\ st' = b.stk /\ frs' = SetK(b.k)
             /\ fuel' = (IF b.loop THEN fuel - 1 ELSE fuel)
-            /\ UNCHANGED <<c, w, phase, ci, gl, mem, msize, tab, log, res, status, inst, obsIn>>
+            /\ UNCHANGED <<c, w, phase, ci, gl, mem, msize, tab, dropped, log, res, status, inst, obsIn>>
 
 Bin(o, a, b) ==
   CASE o = "I32Add" -> Wrap(a + b) [] o = "I32Sub" -> Wrap(a - b + M) [] o = "I32Mul" -> Wrap(a * b)
@@ -183,11 +187,11 @@ DoCall(f, s) ==
   THEN /\ log' = Append(log, [name |-> fn.name, args |-> args])
        /\ st' = DropN(s, fn.np) \o [x \in 1..fn.nr |-> Wrap(7 + Len(log) + x)]
        /\ frs' = SetK(Rest)
-       /\ UNCHANGED <<c, w, phase, ci, gl, mem, msize, tab, res, status, fuel, inst, obsIn>>
+       /\ UNCHANGED <<c, w, phase, ci, gl, mem, msize, tab, dropped, res, status, fuel, inst, obsIn>>
   ELSE IF fuel = 0 THEN OutOfFuel
   ELSE /\ frs' = Append(SetK(Rest), NewFrame(Prog, f, args, Len(s) - fn.np))
        /\ st' = DropN(s, fn.np) /\ fuel' = fuel - 1
-       /\ UNCHANGED <<c, w, phase, ci, gl, mem, msize, tab, log, res, status, inst, obsIn>>
+       /\ UNCHANGED <<c, w, phase, ci, gl, mem, msize, tab, dropped, log, res, status, inst, obsIn>>
 
 Step ==
   /\ status = "run"
@@ -206,14 +210,47 @@ Step ==
          [] o = "LocalTee" -> /\ st' = st /\ frs' = [frs EXCEPT ![Len(frs)] = [locals |-> [F.locals EXCEPT ![ins.i + 1] = top], nr |-> F.nr, K |-> Rest, base |-> F.base]] /\ Same
          [] o = "GlobalGet" -> Pure(Append(st, gl[ins.i + 1]))
          [] o = "GlobalSet" -> /\ st' = DropN(st, 1) /\ gl' = [gl EXCEPT ![ins.i + 1] = top] /\ frs' = SetK(Rest)
-                               /\ UNCHANGED <<c, w, phase, ci, mem, msize, tab, log, res, status, fuel, inst, obsIn>>
+                               /\ UNCHANGED <<c, w, phase, ci, mem, msize, tab, dropped, log, res, status, fuel, inst, obsIn>>
          [] o = "Load" -> LET a == top + ins.off IN
                           IF ~InBounds(ins.m + 1, a, ins.w) THEN Trap ELSE Pure(Append(DropN(st, 1), Load(ins.m + 1, a, ins.w)))
          [] o = "Store" -> LET a == st[Len(st) - 1] + ins.off IN
                           IF ~InBounds(ins.m + 1, a, ins.w) THEN Trap
                           ELSE /\ st' = DropN(st, 2) /\ mem' = StoreBytes(ins.m + 1, a, top, ins.w) /\ frs' = SetK(Rest)
-                               /\ UNCHANGED <<c, w, phase, ci, gl, msize, tab, log, res, status, fuel, inst, obsIn>>
+                               /\ UNCHANGED <<c, w, phase, ci, gl, msize, tab, dropped, log, res, status, fuel, inst, obsIn>>
          [] o = "MemorySize" -> Pure(Append(st, msize[ins.m + 1]))
+         \* ---- bulk memory and table operations: operands are (destination, source, count), bounds are checked before anything is written
+         [] o = "MemoryGrow" -> LET new == msize[ins.m + 1] + top IN
+                                IF new > Prog.mems[ins.m + 1].max
+                                THEN Pure(Append(DropN(st, 1), M - 1))
+                                ELSE /\ st' = Append(DropN(st, 1), msize[ins.m + 1]) /\ msize' = [msize EXCEPT ![ins.m + 1] = new] /\ frs' = SetK(Rest)
+                                     /\ UNCHANGED <<c, w, phase, ci, gl, mem, tab, dropped, log, res, status, fuel, inst, obsIn>>
+         [] o \in {"MemoryCopy", "MemoryFill", "MemoryInit"} ->
+              LET n == top  src == st[Len(st) - 1]  dst == st[Len(st) - 2]  d == ins.m + 1
+                  seg == IF o = "MemoryInit" /\ (ins.seg + 1) \notin dropped.data THEN Prog.data[ins.seg + 1].bytes ELSE <<>>
+                  srcOK == CASE o = "MemoryCopy" -> src + n <= msize[ins.s + 1] * PAGE
+                             [] o = "MemoryInit" -> src + n <= Len(seg)
+                             [] OTHER -> TRUE
+                  byte(a) == CASE o = "MemoryCopy" -> Byte(ins.s + 1, a - dst + src)
+                               [] o = "MemoryInit" -> seg[a - dst + src + 1]
+                               [] OTHER -> src % 256
+              IN IF ~srcOK \/ dst + n > msize[d] * PAGE THEN Trap
+                 ELSE /\ st' = DropN(st, 3) /\ frs' = SetK(Rest)
+                      /\ mem' = [mem EXCEPT ![d] = [a \in (DOMAIN mem[d]) \cup (dst..(dst + n - 1)) |->
+                                                     IF a >= dst /\ a < dst + n THEN byte(a) ELSE mem[d][a]]]
+                      /\ UNCHANGED <<c, w, phase, ci, gl, msize, tab, dropped, log, res, status, fuel, inst, obsIn>>
+         [] o = "DataDrop" -> /\ dropped' = [dropped EXCEPT !.data = @ \cup {ins.seg + 1}] /\ st' = st /\ frs' = SetK(Rest)
+                              /\ UNCHANGED <<c, w, phase, ci, gl, mem, msize, tab, log, res, status, fuel, inst, obsIn>>
+         [] o = "TableSize" -> Pure(Append(st, Len(tab[ins.t + 1])))
+         [] o \in {"TableCopy", "TableInit"} ->
+              LET n == top  src == st[Len(st) - 1]  dst == st[Len(st) - 2]  d == ins.t + 1
+                  seg == IF o = "TableInit" /\ (ins.seg + 1) \notin dropped.elem THEN Prog.elems[ins.seg + 1].items ELSE <<>>
+                  from == IF o = "TableCopy" THEN tab[ins.s + 1] ELSE seg
+              IN IF src + n > Len(from) \/ dst + n > Len(tab[d]) THEN Trap
+                 ELSE /\ st' = DropN(st, 3) /\ frs' = SetK(Rest)
+                      /\ tab' = [tab EXCEPT ![d] = [x \in DOMAIN tab[d] |-> IF x > dst /\ x <= dst + n THEN from[x - dst + src] ELSE tab[d][x]]]
+                      /\ UNCHANGED <<c, w, phase, ci, gl, mem, msize, dropped, log, res, status, fuel, inst, obsIn>>
+         [] o = "ElemDrop" -> /\ dropped' = [dropped EXCEPT !.elem = @ \cup {ins.seg + 1}] /\ st' = st /\ frs' = SetK(Rest)
+                              /\ UNCHANGED <<c, w, phase, ci, gl, mem, msize, tab, log, res, status, fuel, inst, obsIn>>
          [] o = "Unreachable" -> Trap
          [] o = "Block" -> frs' = SetK(Append(Rest, Entry(ins.body, FALSE, ins.nr, Len(st) - F.base - ins.np, <<>>))) /\ UNCHANGED st /\ Same
          [] o = "Loop" ->  frs' = SetK(Append(Rest, Entry(ins.body, TRUE, ins.np, Len(st) - F.base - ins.np, ins.body))) /\ UNCHANGED st /\ Same
@@ -242,12 +279,12 @@ Obs == [inst |-> inst, res |-> res, log |-> log,
 CallsDone == phase = "calls" /\ status = "idle" /\ ci > Len(Cases[c].calls)
 Switch == /\ w = "in" /\ (CallsDone \/ phase = "done")
           /\ obsIn' = Obs /\ w' = "out" /\ phase' = "inst" /\ ci' = 1 /\ st' = <<>> /\ frs' = <<>> /\ status' = "idle"
-          /\ gl' = <<>> /\ mem' = <<>> /\ msize' = <<>> /\ tab' = <<>> /\ log' = <<>> /\ res' = <<>>
+          /\ gl' = <<>> /\ mem' = <<>> /\ msize' = <<>> /\ tab' = <<>> /\ dropped' = [elem |-> {}, data |-> {}] /\ log' = <<>> /\ res' = <<>>
           /\ fuel' = Cases[c].fuel /\ inst' = "none" /\ UNCHANGED c
 Done == w = "out" /\ (CallsDone \/ phase = "done")
 
 Init == /\ c \in 1..N /\ w = "in" /\ phase = "inst" /\ ci = 1 /\ st = <<>> /\ frs = <<>> /\ status = "idle"
-        /\ gl = <<>> /\ mem = <<>> /\ msize = <<>> /\ tab = <<>> /\ log = <<>> /\ res = <<>>
+        /\ gl = <<>> /\ mem = <<>> /\ msize = <<>> /\ tab = <<>> /\ dropped = [elem |-> {}, data |-> {}] /\ log = <<>> /\ res = <<>>
         /\ fuel = Cases[c].fuel /\ inst = "none" /\ obsIn = <<>>
 Next == Instantiate \/ StartCall \/ Step \/ Switch
 Spec == Init /\ [][Next]_vars
